@@ -71,6 +71,18 @@ def evaluators(I, two_runs=False, twin=False, stop_in_batch=False):
             return {"SigmaZ": {"mean": 1.0 * ocount[0], "variance": 2.0 * ocount[0], "std_error": 3.0 * ocount[0], "num_samples": 7}}
 
         oe.system.statistics = scripted
+        # a third evaluator goes through the REAL System.statistics (an observable whose value is the clock reading; the chain
+        # itself is a stub): what it recorded at earlier epochs must not change when it records again
+        from qucumber.observables import ObservableBase
+
+        class Probe(ObservableBase):
+            def apply(self, nn_state, samples):
+                return torch.full((samples.shape[0],), float(clock[0]), dtype=torch.double) + torch.arange(samples.shape[0], dtype=torch.double)
+
+        st.sample = lambda k=1, num_samples=2, initial_state=None, overwrite=False: (initial_state if initial_state is not None else torch.zeros(num_samples, 2, dtype=torch.double))
+        oe3 = ObservableEvaluator(p1, [Probe()], num_samples=2, burn_in=1, steps=1)
+        probe_at = []
+        rec3 = LambdaCallback(on_epoch_end=lambda s, ep: probe_at.append(clock[0]) if ep % int(p1) == 0 else None)
         logged = []
         lg = Logger(p2, logger_fn=logged.append, msg_gen=lambda s, ep, **kw: ("msg", ep, kw.get("tag")), tag="T")
         seen = []
@@ -88,16 +100,18 @@ def evaluators(I, two_runs=False, twin=False, stop_in_batch=False):
         rec = LambdaCallback(on_epoch_end=on_end, on_batch_end=on_bend)
         data = torch.tensor([[0.0, 1.0], [1.0, 1.0], [1.0, 0.0]], dtype=torch.double)
         with contextlib.redirect_stdout(io.StringIO()):
-            st.fit(data, epochs=epochs, pos_batch_size=2, starting_epoch=start, callbacks=[rec, me, me2, lg, oe], optimizer=_Opt)
+            st.fit(data, epochs=epochs, pos_batch_size=2, starting_epoch=start, callbacks=[rec, me, me2, lg, oe, rec3, oe3], optimizer=_Opt)
             if two_runs:
                 me.clear_history()
                 me2.clear_history()
                 oe.clear_history()
+                oe3.clear_history()
+                del probe_at[:]
                 cleared = (len(me) == 0 and me.last == {} and len(me.epochs) == 0 and len(oe) == 0 and oe.last == {} and len(oe.epochs) == 0)
                 first = list(seen)
                 del seen[:]
                 st.stop_training = False
-                st.fit(data, epochs=epochs, pos_batch_size=2, starting_epoch=start, callbacks=[rec, me, me2, lg, oe], optimizer=_Opt)
+                st.fit(data, epochs=epochs, pos_batch_size=2, starting_epoch=start, callbacks=[rec, me, me2, lg, oe, rec3, oe3], optimizer=_Opt)
         if two_runs and not cleared:
             return False, "clear_history left records behind: len %d/%d, last %r / %r" % (len(me), len(oe), me.last, oe.last)
         s0, e0, q1, q2, q3, k0 = int(start), int(epochs), int(p1), int(p2), int(p3), int(stop_at)
@@ -158,6 +172,9 @@ def evaluators(I, two_runs=False, twin=False, stop_in_batch=False):
         oall = ([e for e in first if e % q3 == 0] if two_runs else []) + owant
         if [int(r["epoch"]) for r in orows] != oall or [float(r["SigmaZ_mean"]) for r in orows] != [1.0 * (i + 1) for i in range(len(oall))]:
             return False, "observable CSV rows %s vs %s" % (orows, oall)
+        pm = [c + 0.5 for c in probe_at]  # mean of (c, c + 1)
+        if len(oe3) != len(probe_at) or [float(x) for x in oe3.Probe.mean] != pm or [float(oe3.get_value("Probe", i)["mean"]) for i in range(len(pm))] != pm:
+            return False, "ObservableEvaluator history through System.statistics: means %s, values computed at those epochs %s" % ([float(x) for x in oe3.Probe.mean], pm)
         # logger
         lwant = [("msg", e, "T") for e in (first if two_runs else []) + run if e % q2 == 0]
         if logged != lwant:
@@ -195,6 +212,9 @@ def saver(I, kind="complex", metadata="dict", metadata_only=False, save_initial=
         def on_end(s, ep):
             seen.append(ep)
             snap(ep)
+            if metadata == "dict":
+                user_meta["last_epoch"] = ep  # the caller keeps its metadata dict up to date (this callback runs before the saver)
+                before["last_epoch"] = ep
             if ep == stop_at and not stop_in_batch:
                 s.stop_training = True
 
@@ -228,6 +248,8 @@ def saver(I, kind="complex", metadata="dict", metadata_only=False, save_initial=
                 return False, "%s: callable metadata %r" % (f, {k: blob.get(k) for k in ("epoch", "nv")})
             if metadata == "dict" and (blob.get("note") != "x" or blob.get("nested") != {"a": [1, 2]}):
                 return False, "%s: dict metadata missing" % f
+            if metadata == "dict" and tag != "initial" and blob.get("last_epoch") != tag:
+                return False, "%s: the caller's dict said last_epoch=%r when this file was written, the file holds %r" % (f, tag, blob.get("last_epoch"))
             if metadata_only:
                 if any(n in blob for n in nets):
                     return False, "%s: metadata_only file contains network parameters" % f
@@ -245,6 +267,19 @@ def saver(I, kind="complex", metadata="dict", metadata_only=False, save_initial=
                         return False, "%s: load() gives different %s.%s" % (f, n, k)
         if user_meta != before:
             return False, "caller's metadata dict was modified: %r" % (sorted(user_meta),)
+        if save_initial and not metadata_only:
+            # training is continued later with the same saver and folder: the initial checkpoint of THAT run is written again
+            for n in nets:
+                for p in getattr(st, n).parameters():
+                    p.data.add_(0.375)
+            st.stop_training = False
+            with contextlib.redirect_stdout(io.StringIO()):
+                st.fit(data, **dict(kw, starting_epoch=e0 + 1, epochs=e0 + 1))
+            blob = torch.load(os.path.join(d, "einitial.pt"))
+            for n in nets:
+                for k, v in snaps["initial"][n].items():
+                    if not torch.equal(blob[n][k], v):
+                        return False, "second run: the initial checkpoint still holds the first run's start parameters (%s.%s)" % (n, k)
         return True, ""
     finally:
         shutil.rmtree(d, ignore_errors=True)
